@@ -471,11 +471,16 @@ impl U256 {
 }
 impl VfBytes for &Vec<u8> { open spec fn s_b(&self) -> Seq<u8> { (**self)@ } }
 pub uninterp spec fn put_ok(key: Seq<u8>, value: Seq<u8>) -> bool;     // gate of the direct (non-batch) put
+pub uninterp spec fn del_ok(key: Seq<u8>) -> bool;                     // gate of the direct (non-batch) delete
 impl Db {
     pub uninterp spec fn s_get(&self, key: Seq<u8>) -> Option<Vec<u8>>;
     #[verifier::external_body]
     pub fn put<K: VfBytes, V: VfBytes>(&self, key: K, value: V) -> (r: core::result::Result<(), DbError>)
         requires put_ok(key.s_b(), value.s_b()) ensures r is Ok { unimplemented!() }
+    // GATE: the direct (non-batch) delete
+    #[verifier::external_body]
+    pub fn delete(&self, key: &Vec<u8>) -> (r: core::result::Result<(), DbError>)
+        requires del_ok(key@) ensures r is Ok { unimplemented!() }
     #[verifier::external_body]
     pub fn get_pinned(&self, key: &Vec<u8>) -> (r: core::result::Result<Option<Vec<u8>>, DbError>)
         ensures r is Ok, r->Ok_0 == self.s_get(key@) { unimplemented!() }
